@@ -343,7 +343,7 @@ def check_early(eng, run):
         run.finding("C07.early", ru, test or ru.node, "read_until() no longer rejects a frame whose separator was found beyond the limit before slicing it out")
     run.ob("C07.early", f"{ru.short}:found-but-too-long", ok)
     sp = db.fn("serializers.json:_JSONParser._split_partial_document")
-    first = sp.node.body[0]
+    first = next((st for st in sp.node.body if not (isinstance(st, ast.Assert) or (isinstance(st, ast.Expr) and isinstance(st.value, ast.Constant)) or (isinstance(st, ast.AnnAssign) and st.value is None))), sp.node.body[0])
     ok = isinstance(first, ast.If) and "consumed" in ast.unparse(first.test) and "limit" in ast.unparse(first.test) and any(isinstance(r, ast.Raise) and "LimitOverrunError" in ast.unparse(r) for r in first.body)
     if not ok:
         run.finding("C07.early", sp, first, "_split_partial_document no longer rejects a document longer than the limit before splitting it")
